@@ -22,7 +22,8 @@ func init() {
 			"(R5) client.Handler callbacks are not reachable from Stop or the exported query/submit methods of Node, only from Run's accounted goroutines; " +
 			"(R6) every consumer loop over a guarded channel can only end when the channel is closed (it keeps draining); " +
 			"(R7) every loop of the goroutine entry functions that sleeps or blocks on a read has an exit that depends on isStopping() (shutdown wait loops: on a counter reaching zero); " +
-			"(R8) the must-acquire lock-order graph over mutex fields is acyclic.",
+			"(R8) the must-acquire lock-order graph over mutex fields is acyclic; " +
+			"(R9) a stop request is final: Stop sets hardStop and requests the stop on every path before it waits, the run loop takes its restart path only behind hardStop==false, and requestStop sets the stopping flag unless already stopping/stopped.",
 		NotDecided:  "termination within a bounded time for every stop/disconnect placement; reconnection without re-announcing blocks; liveness of third-party blocking calls.",
 		Assumptions: []string{"net.Conn.Close unblocks a pending read", "lock identity is the mutex field (instances are not distinguished)"},
 		Tech:        "lock typestate with inferred summaries, who-may-send/close, event order on the CFG, goroutine accounting patterns, call-graph reachability, loop-exit dependence, lock-order cycle detection",
@@ -577,6 +578,94 @@ func runC19(c *Check) {
 		}
 	}
 	c.Min("R7", "sleeping/blocking loops in internal/spynode", nLoops, 12)
+
+	// ---- R9 a stop request is final
+	fHard := c.P.Field("spynode", "Node", "hardStop")
+	fStopping := c.P.Field("spynode", "Node", "stopping")
+	fStopped := c.P.Field("spynode", "Node", "stopped")
+	if fn := c.Fn("R9", "spynode.(*Node).Stop"); fn != nil && fHard != nil {
+		var hs []ssa.Instruction
+		for _, st := range storesToField(fn, fHard) {
+			if b, isC := isConstBool(st.Val); isC && b {
+				hs = append(hs, st)
+			}
+		}
+		nWait := 0
+		for _, s := range callsTo(fn, "(*spynode.Node).isStopped") {
+			if loopHeaderOf(s.Instr.Block()) == nil {
+				continue
+			}
+			nWait++
+			ok, w := alwaysPrecededBy(s.Instr, hs)
+			c.Decide(ok, "R9", "spynode.(*Node).Stop#hard-stop-set-before-waiting", s.Pos(), "must-pass-through", w,
+				"Stop marks the stop as final (hardStop) on every path before it waits for the run loop", "Stop can wait for the run loop without having marked the stop as final: if a restart was already in progress the run loop reconnects and Stop waits forever")
+		}
+		c.Min("R9", "wait loops in Stop", nWait, 1)
+		var rq []ssa.Instruction
+		for _, s := range callsTo(fn, "(*spynode.Node).requestStop") {
+			rq = append(rq, s.Instr)
+		}
+		// direct store of stopping=true also counts
+		if fStopping != nil {
+			for _, st := range storesToField(fn, fStopping) {
+				if b, isC := isConstBool(st.Val); isC && b {
+					rq = append(rq, st)
+				}
+			}
+		}
+		for _, s := range callsTo(fn, "(*spynode.Node).isStopped") {
+			if loopHeaderOf(s.Instr.Block()) != nil {
+				already := boolEdge(func(v ssa.Value) bool { return anyFieldLoad(v) == fStopping }, true)
+				ok, w := mustPassOrHappen(s.Instr, already, rq)
+				c.Decide(ok, "R9", "spynode.(*Node).Stop#stop-requested-before-waiting", s.Pos(), "must-pass-through", w,
+					"Stop requests the stop before it waits", "Stop can wait without having requested the stop")
+			}
+		}
+	}
+	if fn := c.Fn("R9", "spynode.(*Node).Run"); fn != nil && fHard != nil {
+		// the restart path (Reset / stopping=false) is only taken behind hardStop == false
+		notHard := boolEdge(func(v ssa.Value) bool { return anyFieldLoad(v) == fHard }, false)
+		n := 0
+		for _, s := range callsTo(fn, "(*state.State).Reset") {
+			n++
+			ok, w := mustPass(s.Instr, notHard)
+			c.Decide(ok, "R9", "spynode.(*Node).Run#restart-only-if-not-hard-stop", s.Pos(), "edge-cutset", w,
+				"the run loop restarts only when no final stop was requested", "the run loop can reconnect although Stop was called (hardStop is not consulted on the restart path)")
+		}
+		if fStopping != nil {
+			for _, st := range storesToField(fn, fStopping) {
+				if b, isC := isConstBool(st.Val); isC && !b {
+					n++
+					ok, w := mustPass(st, notHard)
+					c.Decide(ok, "R9", "spynode.(*Node).Run#stopping-cleared-only-if-not-hard-stop", st.Pos(), "edge-cutset", w,
+						"the stop request is withdrawn only for a restart", "the stop request is cleared although Stop was called")
+				}
+			}
+		}
+		c.Min("R9", "restart actions in Run", n, 2)
+	}
+	if fn := c.Fn("R9", "spynode.(*Node).requestStop"); fn != nil && fStopping != nil && fStopped != nil {
+		n := 0
+		for _, st := range storesToField(fn, fStopping) {
+			if b, isC := isConstBool(st.Val); isC && b {
+				n++
+			}
+		}
+		// every return either found the node stopped/stopping or has set stopping
+		okAll := n > 0
+		for _, ret := range returnsOf(fn) {
+			var ev []ssa.Instruction
+			for _, st := range storesToField(fn, fStopping) {
+				ev = append(ev, st)
+			}
+			already := anyEdge(boolEdge(func(v ssa.Value) bool { return anyFieldLoad(v) == fStopping }, true), boolEdge(func(v ssa.Value) bool { return anyFieldLoad(v) == fStopped }, true))
+			if ok, _ := mustPassOrHappen(ret, already, ev); !ok {
+				okAll = false
+			}
+		}
+		c.Decide(okAll, "R9", "spynode.(*Node).requestStop#sets-stopping", fn.Pos(), "edge-cutset", nil,
+			"requestStop sets stopping unless the node is already stopping or stopped", "requestStop can return without setting the stopping flag although the node is running")
+	}
 
 	// ---- R8 lock order
 	type edge struct{ a, b lockKey }
